@@ -184,6 +184,17 @@ func init() {
 
 
 		"github.com/miekg/dns.id": func(fr *frame, a []value) value { return fr.i.newNondet(types.Uint16, "dns.Id") },
+		// ---- math/rand: the extremes of the range are explored
+		"math/rand.Intn": func(fr *frame, a []value) value {
+			n := int(fr.i.asInt(a[0]))
+			if n <= 0 {
+				panic(targetPanic{fr.i.runtimeError("invalid argument to Intn")})
+			}
+			if n <= 2 {
+				return fr.i.choice(n)
+			}
+			return []int{0, n - 1}[fr.i.choice(2)]
+		},
 		// ---- x/exp/rand: a pick is an explored choice
 		"(*golang.org/x/exp/rand.Rand).Intn": func(fr *frame, a []value) value {
 			n := int(fr.i.asInt(a[1]))
